@@ -402,7 +402,17 @@ pub fn drive_bursts(ctx: &mut Ctx, rng: &mut Rng, thorough: bool) {
                 let size = 1024 + 4 * rng.below(120) as usize;
                 let d = match kind {
                     0..=7 => valid_request(rng, Proto::Google, size, None),
-                    8..=15 => { let ws = rng.chance(1, 2); valid_request(rng, Proto::Ietf, size, if ws { Some(&srv) } else { None }) }
+                    8..=15 => {
+                        let ws = rng.chance(1, 2);
+                        if rng.chance(1, 6) {
+                            // a valid IETF request that offers several versions, draft-13 among the first four (classic 0 and unknown
+                            // numbers before or after it): it must be answered as draft-13
+                            let lists: [&[u32]; 6] = [&[0, proto::VER_DRAFT13], &[proto::VER_DRAFT13, 0], &[1, 0, proto::VER_DRAFT13], &[0x8000_000b, proto::VER_DRAFT13, 0x8000_000d],
+                                                      &[0, 0, 0, proto::VER_DRAFT13], &[proto::VER_DRAFT13, proto::VER_DRAFT13]];
+                            let nonce = rng.bytes(32);
+                            proto::build_request(Proto::Ietf, &nonce, size, lists[rng.below(6) as usize], if ws { Some(&srv) } else { None })
+                        } else { valid_request(rng, Proto::Ietf, size, if ws { Some(&srv) } else { None }) }
+                    }
                     16 => proto::build_request(Proto::Google, &shared_nonce_g, size, &[], None),              // identical nonces
                     17 => {   // IETF requests that share a NONCE: byte-identical ones, and ones that differ elsewhere (size, SRV) -
                               // the IETF leaf is the whole request, so these are different leaves
